@@ -1217,8 +1217,14 @@ func runBalance(a *analysis, verif string, reachedFns map[*ssa.Function]bool) (*
 	a.collecting = wasCollecting
 
 	out := &balOut{Handovers: cfg.Handovers}
+	rowSeen := map[string]bool{}
 	addRow := func(r balRowOut) {
 		r.Key = r.Class + "@" + r.Fn + "@" + r.Lock
+		if k := fmt.Sprint(r.Key, r.W, r.AcqPos, r.ExitKind, r.ExitPos); rowSeen[k] {
+			return
+		} else {
+			rowSeen[k] = true
+		}
 		if al := allowed[r.Key]; al != nil {
 			al.used = true
 			r.Allowed = al.Reason
@@ -1330,12 +1336,12 @@ func runBalance(a *analysis, verif string, reachedFns map[*ssa.Function]bool) (*
 				case bf.fn.Parent() != nil && !bf.goRoot && !bf.consumed && uniform:
 					r.Class = "closure-not-consumed"
 					r.What = "the closure returns with the lock held and no call site of it is known"
+				case remNames[h.l.name]:
+					r.Class = "unresolved-balance"
+					r.What = "the lock stays held on this exit (acquired as " + h.l.path + ") and a lock of the same name is released without being held: locking correlated with a condition, or two names / two instances for one mutex"
 				case uniform && x.kind == "return":
 					r.Class = "undeclared-handover"
 					r.What = "every return leaves the lock held: a hand-over to the caller that is not declared in tools/locktable/handover.json"
-				case remNames[h.l.name]:
-					r.Class = "unresolved-balance"
-					r.What = "the lock stays held on this exit and is released without being held on another: locking correlated with a condition, or two names for one mutex"
 				default:
 					r.Class = "leak"
 					r.What = "the lock acquired at " + r.AcqPos + " is still held at this " + x.kind
@@ -1348,11 +1354,11 @@ func runBalance(a *analysis, verif string, reachedFns map[*ssa.Function]bool) (*
 				case bf.fn.Parent() != nil && !bf.goRoot && !bf.consumed && uniform:
 					r.Class = "closure-not-consumed"
 					r.What = "the closure releases a lock it did not acquire and no call site of it is known"
+				case leftNames[h.l.name]:
+					continue // reported with the exit that keeps the lock
 				case uniform && x.kind == "return":
 					r.Class = "undeclared-handover"
 					r.What = "every return has released a lock the function did not acquire: a hand-over from the caller that is not declared in tools/locktable/handover.json"
-				case leftNames[h.l.name]:
-					continue // reported with the exit that keeps the lock
 				default:
 					r.Class = "unresolved-balance"
 					r.What = "released at " + r.AcqPos + " on this path without having been acquired in the function"
